@@ -40,6 +40,19 @@ def _tobytes(v, n, e):
     return hx(IntegerUtils.ToBytes(int(v), None if n == "none" else int(n), endianness=e))
 
 
+def _scalebytes(b):
+    """the encoder documents `bytes or str`: the text form of a UTF-8 payload must give the same encoding as its bytes"""
+    out = SubstrateScaleBytesEncoder.Encode(b)
+    try:
+        t = b.decode("utf-8")
+    except UnicodeDecodeError:
+        return hx(out)
+    out_t = SubstrateScaleBytesEncoder.Encode(t)
+    if out_t != out:
+        return "ARGUMENT-FORM-DEPENDENT bytes: %s | str: %s" % (out.hex()[:80], out_t.hex()[:80])
+    return hx(out)
+
+
 IMPL = {
     "b58enc": lambda al, d: tx(Base58Encoder.Encode(unhx(d), ALPH[al])),
     "b58dec": lambda al, s: hx(Base58Decoder.Decode(untx(s), ALPH[al])),
@@ -58,7 +71,7 @@ IMPL = {
     "tobin": lambda d, p: BytesUtils.ToBinaryStr(unhx(d), int(p)),
     "scalecuint": lambda v: hx(SubstrateScaleCUintEncoder.Encode(int(v))),
     "scaleuint": lambda v, n: hx(SCALE_U[int(n)].Encode(int(v))),
-    "scalebytes": lambda d: hx(SubstrateScaleBytesEncoder.Encode(unhx(d))),
+    "scalebytes": lambda d: _scalebytes(unhx(d)),
     "cborenc": lambda l: hx(CborIndefiniteLenArrayEncoder.Encode(unnats(l))),
     "cbordec": _cbordec,
     "ss58enc": lambda d, f: tx(SS58Encoder.Encode(unhx(d), int(f))),
@@ -140,6 +153,11 @@ def gen(rng, tier):
         yield Case("tobin", [hx(b), (len(b) * 8) if len(b) % 2 else 0], "int")
         if len(b) <= 70:
             yield Case("scalebytes", [hx(b)], "scale")
+            if len(b) in (3, 16, 31, 32, 33, 63, 64):        # UTF-8 text payloads (character count != byte count) around the mode thresholds
+                for ch in ("é", "日", "😀", "a"):
+                    t = (ch * 70).encode("utf-8")[:len(b) + 4]
+                    t = t.decode("utf-8", "ignore").encode("utf-8")
+                    yield Case("scalebytes", [hx(t)], "scale-text")
         if len(b) == 32:
             for f in (0, 1, 42, 63, 64, 65, 127, 128, 255, 256, 16383, rng.randrange(16384)):
                 yield Case("ss58enc", [hx(b), f], "ss58")
